@@ -348,7 +348,7 @@ func (r *deserContext) decodeBinary() Item {
 		return NewStruct(arr)
 	case MapT:
 		size := int(r.ReadVarUint())
-		if size > r.limit/2 {
+		if size < 0 || size > r.limit/2 {
 			r.Err = errTooBigElements
 			return nil
 		}
